@@ -77,6 +77,10 @@ def random_atoms(rng, cell, n, kinds=('Uiso', 'Uani', None), special=None, s=Non
                 adp = [adp[0], adp[0], adp[0], 0.0, 0.0, 0.0]
             elif k < 0.3:
                 adp = [adp[0] + 0.02, adp[1] + 0.02, adp[2] + 0.02, 0.0, 0.0, rng.choice([-1, 1]) * 0.01]
+            elif k < 0.38:      # very large, strongly anisotropic displacement: one operator image is damped to nothing while others are not
+                big = [rng.uniform(0.3, 0.7), 0.004, 0.004]
+                rng.shuffle(big)
+                adp = big + [0.0, 0.0, 0.0]
         else:
             adp = 0.0
         atoms.append(Atom(label='A%d' % i, atomtype=rng.choice(ELEMENTS), pos=pos, adp_type=kind, adp=adp, occ=round(rng.uniform(0.2, 1.0), 3), symmulti=None))
